@@ -2,6 +2,7 @@
 """mkbenign.py <id> <area>: prompt + scratch worktree for a small OBSERVABLE but PROPERTY-PRESERVING change (used to test that the checks do not demand more than the properties state)."""
 import json, os, subprocess, sys
 wid, area = sys.argv[1], sys.argv[2]
+hint = sys.argv[3] if len(sys.argv) > 3 else ""
 wt = '/tmp/wt/' + wid
 if not os.path.exists(wt):
     subprocess.check_call(['git', '-C', '/repo', 'worktree', 'add', '--detach', wt, 'HEAD'], stdout=subprocess.DEVNULL, stderr=subprocess.DEVNULL)
@@ -17,7 +18,7 @@ Every shell command needs this environment first (no network is available):
 THE PROPERTIES (everything they do not mention is free to change):
 {ptxt}
 
-YOUR TASK: make ONE to THREE small, realistic changes in this area: {area}. Each must change something an outside observer could notice (an additional or reworded log line - but keep the words "forwarding" in the existing not-forwarding warning -, an extra read-only system call such as reading a sysctl or listing addresses once more, an extra metric or label-free counter, a different internal buffer size or back-off duration where no property fixes it, an additional debug HTTP route, work done in a different but equally legal order, a harmless extra goroutine, an extra field in the JSON API output, ...) while ALL of the properties above still hold exactly as stated for every input and schedule. Think carefully about each property before you settle on a change: if in doubt that a change is allowed, pick another. Do not weaken or remove any existing behaviour. Do NOT touch files whose name starts with verif_.
+YOUR TASK: make ONE to THREE small, realistic changes in this area: {area}. {hint} Each must change something an outside observer could notice (an additional or reworded log line - but keep the words "forwarding" in the existing not-forwarding warning -, an extra read-only system call such as reading a sysctl or listing addresses once more, an extra metric or label-free counter, a different internal buffer size or back-off duration where no property fixes it, an additional debug HTTP route, work done in a different but equally legal order, a harmless extra goroutine, an extra field in the JSON API output, ...) while ALL of the properties above still hold exactly as stated for every input and schedule. Think carefully about each property before you settle on a change: if in doubt that a change is allowed, pick another. Do not weaken or remove any existing behaviour. Do NOT touch files whose name starts with verif_.
 The project must still build (`go build ./...`, also `go build -tags verif ./...`) and the existing test suite must still pass: `go test -vet=off -count=1 ./...` (ignore internal/netstate TestIntegrationWatcherWatch, which always fails in this sandbox; edit an existing test only where your deliberate, allowed change of output makes a mechanical update necessary, and say so).
 
 DELIVERABLES inside {wt}: the change left applied in the working tree (uncommitted) and saved with `git diff > {wt}/patch.diff`; {wt}/meta.json with keys "summary" (what changed, and for each change one sentence on why no property is violated) and "files" (list). NEVER use `git stash`. Finish by printing `git diff --stat` and meta.json."""
